@@ -200,4 +200,38 @@ theorem toDictLoop_notLive (i : Nat) (attrs : List Attr) (w : World) (acc : List
       simp only at hs ⊢
       exact ih w' _ (by rw [hs.2]; exact h)
 
+theorem bump_wbits (o : Obj) (b : Nat) : (bump o b).wbits = o.wbits := by
+  unfold bump
+  split
+  · split <;> simp_all
+  · simp_all
+
+/-- the assert in `Set.copy` holds when every item that is not in `added` has write bits (i.e. has been saved or loaded) -/
+theorem copyBump_ok (a : Attr) (added : Option (List Nat)) (l : List Nat) (w : World)
+    (h : ∀ j ∈ l, mem? added j = false → ∃ it, w.objs[j]? = some it ∧ it.wbits.isSome = true) :
+    (copyBump a added l w).2 = true := by
+  induction l generalizing w with
+  | nil => simp [copyBump]
+  | cons j rest ih =>
+    unfold copyBump
+    by_cases hm : mem? added j = true
+    · simp only [hm, if_true]
+      exact ih w (fun k hk hmk => h k (List.mem_cons_of_mem _ hk) hmk)
+    · have hm' : mem? added j = false := by simpa using hm
+      obtain ⟨it, hj, hw⟩ := h j (List.mem_cons_self ..) hm'
+      simp only [hm', hj]
+      cases hwb : it.wbits with
+      | none => simp [hwb] at hw
+      | some wb =>
+        simp only [Bool.false_eq_true, if_false]
+        apply ih
+        intro k hk hmk
+        obtain ⟨it2, hk2, hw2⟩ := h k (List.mem_cons_of_mem _ hk) hmk
+        by_cases hkj : j = k
+        · subst hkj
+          have hlt : j < w.objs.length := (List.getElem?_eq_some_iff.mp hj).1
+          refine ⟨bump it a.revBit, by simp [World.setObj, hlt], ?_⟩
+          rw [bump_wbits]; exact hw
+        · exact ⟨it2, by simp [World.setObj, hkj, hk2], hw2⟩
+
 end PonyVerif.Model.Finished
